@@ -21,9 +21,11 @@ Proof. exact reachable_shared. Qed.
 Print Assumptions C13_reachable_shared.
 
 (* the full bookkeeping invariant - shared objects, the dataset's dimensions are exactly those used by
-   its variables, distinct dimension names, distinct keys - for histories of assignments (new or
-   replacing, with fewer / more / other dimensions), deletions, relabellings, renames to fresh names and
-   axis replacements *)
+   its variables, distinct dimension names, distinct keys - for histories over the WHOLE alphabet: assignments (new
+   or replacing, with fewer / more / other dimensions), deletions, relabellings, ds.dims = (no side condition),
+   construction from a dict, and - with [op_ok]: the new name is fresh or unchanged at the moment it is given -
+   renames of one axis (through the dataset or through a variable), rename_axes, set_axis(name=), axis
+   replacements and rename_keys *)
 Theorem C13_step_invariant : forall s o, Inv4 s -> op_ok s o -> Inv4 (fst (ds_step s o)).
 Proof. exact step_inv. Qed.
 Print Assumptions C13_step_invariant.
